@@ -440,6 +440,14 @@ func c02(c *fw.Ctx) {
 					if !c02One(r, o, []string{"c40-eod", "text-eod", "x12-eod", "edifact-eod"}[fam]) {
 						return
 					}
+					// the same end of data inside a macro envelope (the trailer is not part of the
+					// characters that remain to be encoded)
+					if k%2 == 0 || fam == 3 {
+						om := dmOpts{text: []string{"[)>\x1e05\x1d", "[)>\x1e06\x1d"}[k%2] + o.text + "\x1e\x04"}
+						if !c02One(r, om, []string{"c40-eod-in-macro", "text-eod-in-macro", "x12-eod-in-macro", "edifact-eod-in-macro"}[fam]) {
+							return
+						}
+					}
 				}
 			})
 		}
